@@ -188,24 +188,76 @@ def mk_request(rid, s, t, ttype, mode, spacing, nch, power, bw, slots, bidir, in
     return r
 
 
+NEAR_TWIN_DIMS = ['source', 'destination', 'bidirectional', 'trx_type', 'trx_mode', 'include-node', 'hop-type',
+                  'spacing', 'output-power', 'max-nb-of-channel', 'tx_power']
+
+
+def set_include(r, inc):
+    r['explicit-route-objects'] = {'route-object-include-exclude': [
+        {'explicit-route-usage': 'route-include-ero', 'index': i,
+         'num-unnum-hop': {'node-id': n, 'link-tp-id': 'link-tp-id is not used', 'hop-type': h}}
+        for i, (n, h) in enumerate(inc)]}
+
+
+def near_twin(rng, dim, r0, r, names, modes):
+    """make r (a deep copy of r0) differ from r0 in exactly the dimension `dim` of the request document, keeping both
+    loadable (spacing >= min spacing of the mode ...).  'include-node' / 'hop-type' give both the same kind of include
+    list first (r0 is modified too, before it is loaded).  Falls back to a true twin when the change is impossible."""
+    te0, te = r0['path-constraints']['te-bandwidth'], r['path-constraints']['te-bandwidth']
+    s, t = r0['source'][4:], r0['destination'][4:]
+    if dim == 'source' or dim == 'destination':
+        other = [u for u in names if u not in (s, t)]
+        if other:
+            u = rng.choice(other)
+            key, tp = ('source', 'src-tp-id') if dim == 'source' else ('destination', 'dst-tp-id')
+            r[key] = r[tp] = f'trx {u}'
+    elif dim == 'bidirectional':
+        r['bidirectional'] = not r0['bidirectional']
+    elif dim == 'trx_type':
+        o = 'vendorA_trx-type1' if te0['trx_type'] == 'Voyager' else 'Voyager'
+        if te0['trx_mode'] is None or any(m[0] == te0['trx_mode'] and m[1] <= te0['spacing'] for m in modes[o]):
+            te['trx_type'] = o
+            te['effective-freq-slot'] = [{'N': None, 'M': None}]
+    elif dim == 'trx_mode':
+        cands = [m[0] for m in modes[te0['trx_type']] if m[0] != te0['trx_mode'] and m[1] <= te0['spacing']]
+        if cands and te0['trx_mode'] is not None:
+            te['trx_mode'] = rng.choice(cands)
+            te['effective-freq-slot'] = [{'N': None, 'M': None}]
+    elif dim in ('include-node', 'hop-type'):
+        # both include a ROADM that every route crosses, so both stay routable
+        set_include(r0, [(f'roadm {t}', 'STRICT')])
+        if dim == 'hop-type':
+            set_include(r, [(f'roadm {t}', 'LOOSE')])
+        else:
+            set_include(r, [(f'roadm {s}', 'STRICT')])
+    elif dim == 'spacing':
+        te['spacing'] = te0['spacing'] + 12.5e9
+    elif dim == 'output-power':
+        te['output-power'] = 1.7e-3 if te0['output-power'] != 1.7e-3 else 0.8e-3
+    elif dim == 'max-nb-of-channel':
+        te['max-nb-of-channel'] = 9 if te0['max-nb-of-channel'] != 9 else 10
+    elif dim == 'tx_power':
+        te['tx_power'] = 1.1e-3 if te0.get('tx_power') != 1.1e-3 else 0.9e-3
+
+
 def gen_batch(rng, topo, k):
     names = [site(i) for i in range(topo['n'])]
     modes = modes_of(k)
     nreq = rng.randint(1, 7)
     reqs = []
     for i in range(nreq):
-        if reqs and rng.random() < 0.22:
-            # a duplicate of an earlier request (aggregated when its mode is fixed); other id, bandwidth, slots
-            r = copy.deepcopy(rng.choice(reqs))
+        if reqs and rng.random() < 0.3:
+            # a twin of an earlier request (other id, bandwidth, slots), or a near-twin that differs from it in exactly
+            # one of the things a request can state (NEAR_TWIN_DIMS): only the true twin may be aggregated
+            fixed = [q for q in reqs if q['path-constraints']['te-bandwidth']['trx_mode'] is not None]
+            r0 = rng.choice(fixed or reqs)
+            r = copy.deepcopy(r0)
             r['request-id'] = str(i)
             te = r['path-constraints']['te-bandwidth']
             if rng.random() < 0.5:
                 te['path_bandwidth'] = rng.choice([100e9, 200e9, 150e9, 400e9])
-            x = rng.random()
-            if x < 0.25:
-                r['bidirectional'] = not r['bidirectional']        # not identical: must not be aggregated (was F14)
-            elif x < 0.35:
-                te['spacing'] = te['spacing'] + 12.5e9             # not identical: must not be aggregated
+            dim = rng.choice(NEAR_TWIN_DIMS + ['twin'] * 4)
+            near_twin(rng, dim, r0, r, names, modes)
             reqs.append(r)
             continue
         s, t = rng.sample(names, 2)
@@ -504,8 +556,23 @@ def csv_threshold_variants(rng, drv, k):
             row = list(csv.DictReader(io.StringIO(f.getvalue())))[0]
         except Exception as ex:
             row = {'__exc__': type(ex).__name__}
-        out.append((r2, row))
+        out.append((r2, row, thr))
     return out
+
+
+def csv_pass_oracle(resp, row, thr):
+    """the pass-flag clause on the real CSV row, from the response document itself:
+    Pass? == (lowest SNR 0.1nm >= required OSNR of the mode + system margins), inclusive.  None = holds / not judged"""
+    if '__exc__' in row:
+        return f'jsontocsv raised {row["__exc__"]}'
+    smin = metric_value(resp['path-properties']['path-metric'], 'lowest_SNR-0.1nm')
+    if not isinstance(smin, (int, float)) or (abs(smin - thr) < 1e-9 and smin != thr):
+        return None
+    want = 'True' if smin >= thr else 'False'
+    if row['Pass?'] != want:
+        return (f'lowest SNR-0.1nm {smin!r} vs required OSNR + margin {thr!r}: the CSV says Pass?={row["Pass?"]}, '
+                f'the margin-inclusive threshold says {want}')
+    return None
 
 
 # ------------------------------------------------------------------ aggregation alone (no network needed)
@@ -513,9 +580,31 @@ class _Req:
     """stand-in for PathRequest as requests_aggregation / compare_reqs see it (identity equality, plain attributes)"""
 
 
-def gen_agg_case(rng):
+def perturb(field, v):
+    """another value for one compared field"""
+    if field == 'bidir':
+        return not v
+    if field in ('source', 'destination'):
+        return v + "'"
+    if field == 'tsp':
+        return 'vendorA_trx-type1' if v == 'Voyager' else 'Voyager'
+    if field in ('tsp_mode', 'format'):
+        return 'mode 9' if v is not None else 'mode 1'
+    if field == 'nodes_list':
+        return ['roadm X'] + list(v)
+    if field == 'loose_list':
+        return ['LOOSE' if x == 'STRICT' else 'STRICT' for x in v] if v else ['LOOSE']
+    if field == 'nb_channel':
+        return v + 1
+    if v is None:
+        return 1.0
+    return v * 1.25 + 1
+
+
+def gen_agg_case(rng, field=None):
     """2-8 requests drawn from a few templates (so that twins exist), 0-4 synchronisation groups; twins are often put
-    into groups of the same shape, sometimes of different shapes"""
+    into groups of the same shape, sometimes of different shapes.  With `field`, two fixed-mode requests are made
+    identical in all compared fields but that one (run() walks through every field of the key)."""
     ntpl = rng.randint(1, 3)
     tpls = []
     for k in range(ntpl):
@@ -540,9 +629,16 @@ def gen_agg_case(rng):
                  N=[rng.choice([None, 8 * rng.randint(-5, 5)]) for _ in range(k)],
                  M=[rng.choice([None, 4, 8]) for _ in range(k)])
         reqs.append(t)
+    if field is not None:
+        a, b = rng.sample(range(n), 2)
+        if reqs[a]['tsp_mode'] is None:
+            reqs[a].update(tsp_mode='mode 1', format='mode 1', baud_rate=32e9, OSNR=12)
+        for f in KEY_FIELDS:
+            reqs[b][f] = copy.deepcopy(reqs[a][f])
+        reqs[b][field] = perturb(field, reqs[a][field])
     ids = [r['id'] for r in reqs]
     groups = []
-    for _ in range(rng.choice([0, 0, 1, 1, 2, 3])):
+    for _ in range(rng.choice([0, 0, 1, 1, 2, 3]) if field is None else rng.choice([0, 0, 0, 1])):
         style = rng.random()
         if style < 0.55 and len(ids) >= 3:
             # the same partners for several requests: [t1] + P, [t2] + P, ... (twins then sit in groups of one shape)
@@ -555,7 +651,7 @@ def gen_agg_case(rng):
             if rng.random() < 0.15:
                 g.append(g[0])                               # an id repeated inside one group
             groups.append(g)
-    if rng.random() < 0.3 and len(ids) >= 4:
+    if field is None and rng.random() < 0.3 and len(ids) >= 4:
         # two requests, each in several groups of pairwise equal shape, the groups of one request adjacent
         a, b = rng.sample(ids, 2)
         if rng.random() < 0.7:
@@ -567,7 +663,7 @@ def gen_agg_case(rng):
                 groups.append([x, pnr])
     if rng.random() < 0.3:
         rng.shuffle(groups)
-    return {'kind': 'agg', 'requests': reqs, 'groups': groups}
+    return {'kind': 'agg', 'requests': reqs, 'groups': groups, 'near_twin_field': field}
 
 
 def drive_agg(case):
@@ -1051,11 +1147,15 @@ def run(ctx):
     agg_cases = [c for c in cases if c.get('kind') == 'agg']
     cases = [c for c in cases if c.get('kind') != 'agg']
     if not ctx.replay:
-        agg_cases += [gen_agg_case(rng) for _ in range(ctx.scale(250, 5000))]
+        # every other case holds a pair that differs in exactly one compared field; the fields are walked through
+        agg_cases += [gen_agg_case(rng, KEY_FIELDS[(j // 2) % len(KEY_FIELDS)] if j % 2 else None)
+                      for j in range(ctx.scale(272, 5100))]
     for c in agg_cases:
         ag = drive_agg(c)
         sc = slim(c)
         ctx.count('aggregation_alone')
+        if c.get('near_twin_field'):
+            ctx.count('near_twin_' + c['near_twin_field'])
         if 'exc' in ag:
             ctx.violation('aggregation_exception', f'requests_aggregation raised {ag["exc"]}', sc)
             continue
@@ -1114,10 +1214,14 @@ def run(ctx):
                 continue
             add('resp', f'check_all {obs_lit(o)} {jlit(resp)} eqp{k} margin{k} {qlit(pdbm_of(resp))}', sc,
                 o['id'] + ' (direct ' + o['kind'] + ')', o, resp, row, csv_skips(resp, k))
-        for (r2, row) in (csv_threshold_variants(drng, drv, k) if drng.random() < 0.35 else []):
+        for (r2, row, thr) in (csv_threshold_variants(drng, drv, k) if drng.random() < 0.35 else []):
             if has_bad_number(r2):
                 continue
             ctx.count('csv_threshold_rows')
+            bad = csv_pass_oracle(r2, row, thr)
+            if bad:
+                ctx.violation('csv_pass_threshold', f'response {r2["response-id"]}: {bad}', sc, response=r2,
+                              csv_row={kk: v for kk, v in row.items() if v != ''})
             add('csvonly', f'csv_s eqp{k} margin{k} {qlit(pdbm_of(r2))} {jlit(r2)}', sc, r2['response-id'], r2, row,
                 csv_skips(r2, k))
     lines = common.coq_eval('C19', 'Prelude Model.Response Run.C19', terms, per_file=25, prelude=eqp_prelude())
